@@ -1,5 +1,6 @@
 import QuillModel.Backend.FlushProgress
 import QuillModel.Backend.ResumeProgress
+import QuillModel.Backend.PubInv
 import QuillModel.Backend.FlushContract
 import QuillModel.Props.C05
 import QuillModel.Props.C17
@@ -162,8 +163,8 @@ theorem C06_flush_log_returns_committed_after_grace (s0 : BSt) (h0 : StartF s0) 
 /-- **`flush_log()` returns as long as the backend keeps running** (the caller still in its retry loop). Any
     configuration whose queue publishes on drain (`qp.drainPublish`, extracted), either queue type; after **any**
     schedule `pre` actor `a` is parked on the retry of a refused Flush request `st` (flag `f`) that fits an empty
-    queue, its context's reads are committed (`ReadsCommitted`: excludes only the fuel exit of the model's
-    `readQueue`, see `Props/C09Backend.lean`) and the backend is running. Continuation:
+    queue, and the backend is running (that the reader position is published once the queue is drained, whatever
+    `pre` did, is `C09_reads_committed`). Continuation:
     `tick dt₁ (≥ grace)`, quiet polls/ticks with at least `pendingCount` polls, **`resume a`**,
     `tick dt₂ (≥ grace)`, quiet polls/ticks with at least one poll. Then the first `resume` commits the request (the
     caller now waits on flag `f`), the flag is raised at the end, and the caller's next `resume` answers "done":
@@ -171,7 +172,6 @@ theorem C06_flush_log_returns_committed_after_grace (s0 : BSt) (h0 : StartF s0) 
 theorem C06_flush_log_returns (s0 : BSt) (h0 : StartF s0) (pre : List Op) (a : Nat) (x : Actor) (st : Stmt) (f : Nat)
     (hdp : s0.cfg.qp.drainPublish = true) (hx : (runOps s0 pre).actor a = some x) (hp : x.pend = .retry st 1)
     (hk : st.kind = .flush f) (hsz : st.size ≤ s0.cfg.qcap)
-    (hcom : ∀ i, x.ctx = some i → ReadsCommitted (runOps s0 pre) i)
     (hrun : (runOps s0 pre).backendGone = false)
     (dt1 : Nat) (hdt1 : s0.cfg.grace ≤ dt1) (q1 : List Op) (hq1 : ∀ o ∈ q1, quietOp o = true)
     (hn1 : pendingCount (runOps s0 pre) ≤ pollCount q1)
@@ -183,7 +183,8 @@ theorem C06_flush_log_returns (s0 : BSt) (h0 : StartF s0) (pre : List Op) (a : N
   have hgi := (start_GI h0.start).runOps pre
   have hfi := (start_FI h0).runOps pre
   have hcfg := (start_GI h0.start).cfg_runOps pre
-  have h := flush_retry_returns hgi hfi hrun (by rw [hcfg]; exact hdp) a x st f hx hp hk (by rw [hcfg]; exact hsz) hcom
+  have h := flush_retry_returns hgi hfi hrun (by rw [hcfg]; exact hdp) a x st f hx hp hk (by rw [hcfg]; exact hsz)
+    (fun i _ => readsCommitted_runOps h0.start hdp pre i)
     dt1 (by rw [hcfg]; exact hdt1) q1 hq1 hn1 dt2 (by rw [hcfg]; exact hdt2) q2 hq2 hn2
   have e1 : runOps s0 (pre ++ (.front (.tick dt1) :: q1) ++ [.front (.resume a)]) =
       (applyOp (runOps (runOps s0 pre) (.front (.tick dt1) :: q1)) (.front (.resume a))).1 := by
@@ -366,7 +367,7 @@ example :
 
 /-- non-vacuity of `C06_flush_log_returns`: on the 64-byte queue the Flush request (40 bytes ≤ 64) is refused behind the
     47-byte statement and the caller is parked on its retry (continuation 1, context 0); the context still holds the
-    unread statement (so `ReadsCommitted` holds), the backend runs, one record is pending. The continuation
+    unread statement, the backend runs, one record is pending. The continuation
     `tick 0, poll, resume 1, tick 0, poll` meets the hypotheses, and — as the theorem says — the flag is raised and
     the caller's next `resume` answers "done". -/
 example :
